@@ -373,7 +373,30 @@ func (e *Extractor) extractPrefixesConcat(re *syntax.Regexp, depth int) *Seq {
 		return NewSeq()
 	}
 
+	// A literal next to a zero-width assertion that was skipped above (\b, \B, or a
+	// leading ^ when this concatenation is only a part of the pattern) is necessary but
+	// not sufficient: whether it is a match depends on its context. Only the leading
+	// anchor of the whole pattern may be ignored here; callers handle that one themselves.
+	if hasSkippedAssertion(re.Sub[startIdx:]) || (startIdx > 0 && depth > 0) {
+		e.markAllInexact(acc)
+	}
+
 	return acc
+}
+
+// hasSkippedAssertion reports whether any of the concatenated sub-expressions is
+// (a capture group around) a word-boundary assertion, which concatSubContribution
+// skips as an empty literal.
+func hasSkippedAssertion(subs []*syntax.Regexp) bool {
+	for _, sub := range subs {
+		for sub.Op == syntax.OpCapture && len(sub.Sub) > 0 {
+			sub = sub.Sub[0]
+		}
+		if sub.Op == syntax.OpWordBoundary || sub.Op == syntax.OpNoWordBoundary {
+			return true
+		}
+	}
+	return false
 }
 
 // concatSubContribution returns a Seq representing a sub-expression's contribution
@@ -703,6 +726,11 @@ func (e *Extractor) extractSuffixes(re *syntax.Regexp, depth int) *Seq {
 			}
 		}
 
+		if lastIdx < len(re.Sub)-1 || hasSkippedAssertion(re.Sub[:lastIdx]) {
+			// Next to an assertion that was skipped above ($, \b, \B):
+			// necessary, but a whole match only in the right context
+			e.markAllInexact(suffixes)
+		}
 		return suffixes
 
 	case syntax.OpAlternate:
